@@ -3,7 +3,7 @@ from . import crashwl as W
 from . import crashproto as P
 from . import multigen as MG
 
-PARAM_SECTIONS = ["wal"]
+PARAM_SECTIONS = ["wal", "pipeline"]
 
 MODEL_TARGETS = ["theories/Crash/Proto.vo"]
 TRUSTED = __import__("vlib.c02", fromlist=["TRUSTED"]).TRUSTED
